@@ -21,7 +21,7 @@ class MixinB:
 
 
 def build(d, *, schema_kw=None, ops_kw=None, doc_kw=None, config=None, calls_per_op=2,
-          mixins=False, omit_p=0.5):
+          mixins=False, omit_p=0.5, config_desc_fn=None):
     desc = gen_schema(d, **(schema_kw or {}))
     sdl = render_sdl(desc)
     try:
@@ -58,8 +58,12 @@ def build(d, *, schema_kw=None, ops_kw=None, doc_kw=None, config=None, calls_per
         for _ in range(calls_per_op):
             calls.append({"op": op["name"], "args": gen_call_args(d, desc, op, omit_p=omit_p)})
     cfg = dict(config or {})
+    if config_desc_fn is not None:
+        cfg2, files2 = config_desc_fn(d, desc)
+        cfg.update(cfg2)
+        files.update(files2)
     if mixins:
-        cfg["files_to_include"] = ["mixins.py"]
+        cfg.setdefault("files_to_include", []).append("mixins.py")
     case = {
         "sdl": sdl,
         "queries": queries,
@@ -73,6 +77,7 @@ def build(d, *, schema_kw=None, ops_kw=None, doc_kw=None, config=None, calls_per
                  "scalars": desc.scalars},
         "features": sorted(d.features),
     }
+    case["_desc_obj"] = desc
     return case
 
 
@@ -99,7 +104,136 @@ def project_strategy(**kw):
         d = D(draw)
         cfg = cfg_fn(d)
         case = build(d, config=cfg, **kw)
+        case.pop("_desc_obj", None)
         case["features"] = sorted(d.features)
         return case
 
     return _s()
+
+
+# ------------------------------------------------------------------ wide configuration (C04)
+
+SCALARS_IMPL = '''import datetime
+
+CALLS = []
+
+
+class Money:
+    def __init__(self, raw):
+        self.raw = raw
+
+    def __eq__(self, other):
+        return isinstance(other, Money) and other.raw == self.raw
+
+    def __repr__(self):
+        return f"Money({self.raw!r})"
+
+
+def parse_money(value):
+    CALLS.append(("parse", value))
+    return Money(value)
+
+
+def serialize_money(value):
+    CALLS.append(("serialize", value))
+    return value.raw if isinstance(value, Money) else value
+'''
+
+MODULE_NAMES = ["client", "gql_client", "api", "enums", "my_enums", "input_types", "inputs", "fragments", "frags",
+                "base_model", "exceptions", "types_", "Models", "x1"]
+CLASS_NAMES = ["Client", "GraphQLClient", "Api", "client", "MyClient2", "Models"]
+PACKAGE_NAMES = ["graphql_client", "gql", "my_pkg", "Pkg2", "client"]
+
+
+def scalar_config(d, name, style=None):
+    style = style or d.weighted([(3, "builtin"), (2, "dotted"), (3, "relative"), (2, "deprecated_import"), (2, "none")])
+    d.tag(f"scalar.{style}")
+    if style == "none":
+        return None, False
+    if style == "builtin":
+        return {"type": d.choice(["str", "int", "float", "bool"])}, False
+    if style == "dotted":
+        return {"type": d.choice(["datetime.datetime", "decimal.Decimal", "uuid.UUID"])}, False
+    extras = d.choice([(), ("parse",), ("serialize",), ("parse", "serialize")])
+    for e in extras:
+        d.tag(f"scalar.with_{e}")
+    if style == "relative":
+        cfg = {"type": ".scalars_impl.Money"}
+        for e in extras:
+            cfg[e] = f".scalars_impl.{e}_money"
+        return cfg, True
+    cfg = {"type": "Money", "import": ".scalars_impl"}
+    for e in extras:
+        cfg[e] = f"{e}_money"
+    return cfg, True
+
+
+def wide_config(d, desc):
+    cfg = base_config(d)
+    custom_ops = getattr(desc, "want_custom_operations", None)
+    if custom_ops is None:
+        custom_ops = d.bool(0.25)
+    if custom_ops:
+        cfg["enable_custom_operations"] = True
+        d.tag("cfg.custom_operations")
+
+    def name_opt(key, pool, p):
+        if d.bool(p):
+            v = d.choice(pool)
+            cfg[key] = v
+            d.tag(f"cfg.{key}")
+
+    name_opt("target_package_name", PACKAGE_NAMES, 0.3)
+    name_opt("client_name", CLASS_NAMES, 0.3)
+    name_opt("client_file_name", MODULE_NAMES, 0.25)
+    name_opt("fragments_module_name", MODULE_NAMES, 0.25)
+    if not custom_ops or d.enabled("customops.module_names"):
+        name_opt("enums_module_name", MODULE_NAMES, 0.25)
+        name_opt("input_types_module_name", MODULE_NAMES, 0.25)
+    prune_ok = not custom_ops or d.enabled("customops.prune")
+    if prune_ok and d.bool(0.3):
+        cfg["include_all_inputs"] = False
+        d.tag("cfg.prune_inputs")
+    if prune_ok and d.bool(0.3):
+        cfg["include_all_enums"] = False
+        d.tag("cfg.prune_enums")
+    if d.bool(0.3):
+        cfg["include_comments"] = d.choice(["stable", "none"])
+    files = {}
+    scalars = {}
+    need_impl = False
+    for s in desc.scalars:
+        sc, impl = scalar_config(d, s)
+        if sc and custom_ops and not d.enabled("customops.custom_scalar"):
+            sc = None
+        if sc:
+            scalars[s] = sc
+            need_impl = need_impl or impl
+    if scalars:
+        cfg["scalars"] = scalars
+    if need_impl:
+        files["scalars_impl.py"] = SCALARS_IMPL
+        cfg.setdefault("files_to_include", []).append("scalars_impl.py")
+    if d.bool(0.2):
+        files["extra_helpers.py"] = "HELPER = 1\n"
+        cfg.setdefault("files_to_include", []).append("extra_helpers.py")
+        d.tag("cfg.files_to_include")
+    return cfg, files
+
+
+def expected_file_names(cfg, ops, has_fragments_module=True):
+    """File names (without .py) the documented layout puts in the package for this configuration."""
+    from vf.gen_schema import canon  # noqa: F401
+
+    names = [cfg.get("client_file_name", "client"), cfg.get("enums_module_name", "enums"),
+             cfg.get("input_types_module_name", "input_types"), cfg.get("fragments_module_name", "fragments"),
+             "base_model", "exceptions"]
+    if cfg.get("async_client", True):
+        names.append("async_base_client_open_telemetry" if cfg.get("opentelemetry_client") else "async_base_client")
+    else:
+        names.append("base_client_open_telemetry" if cfg.get("opentelemetry_client") else "base_client")
+    for f in cfg.get("files_to_include", []):
+        names.append(f[:-3])
+    if cfg.get("enable_custom_operations"):
+        names.append("base_operation")
+    return names
